@@ -25,6 +25,12 @@ META = dict(
 )
 
 
+def last_col(v):
+    """the value a row is ranked by: the discrepancy itself, or its LAST column for a nested (multi-column) discrepancy"""
+    a = np.asarray(v, dtype=float)
+    return float(a.reshape(-1)[-1]) if a.ndim else float(a)
+
+
 def key_json(v):
     v = float(v)
     if math.isinf(v):
@@ -53,6 +59,9 @@ def build_model(case):
         tok = s if s.ndim == 1 else s[:, 0]
         d = np.floor(tok * A * 0.999999)
         d = np.where(tok > 1 - p_inf, np.inf, d)
+        if case.get('two_col'):
+            # a nested distance: rows are ranked by the LAST column; the first column is a decoy that is large where the last is small
+            return np.column_stack([100.0 - d, d])
         if case.get('int_discrepancy'):
             return d.astype(np.int64)          # a count-valued discrepancy (mismatch counts on discrete data): integer dtype
         return d
@@ -98,7 +107,7 @@ def analyse(ctx, case):
         rows = []
         for r in range(case['b']):
             did = bi * case['b'] + r
-            key = float(pool.stores['d'][bi][r])
+            key = last_col(pool.stores['d'][bi][r])
             tup = tuple(np.asarray(pool.stores[k][bi][r], dtype=float).tobytes() for k in outs)      # (values, whatever the dtype: an integer discrepancy comes back as float)
             ident.setdefault(tup, []).append(did)
             cons.append([did, key_json(key)])
@@ -110,10 +119,10 @@ def analyse(ctx, case):
         cands = [i for i in ident.get(tup, []) if i not in used]
         if cands:
             used.add(cands[0])
-            out.append([cands[0], key_json(res.outputs['d'][r])])
+            out.append([cands[0], key_json(last_col(res.outputs['d'][r]))])
         else:
             unmatched += 1
-            out.append([None, key_json(res.outputs['d'][r])])
+            out.append([None, key_json(last_col(res.outputs['d'][r]))])
     thr_given = None
     if case['form'] == 'threshold':
         thr_given = 'inf' if case['value'] == 'inf' else key_json(case['value'])
@@ -124,7 +133,7 @@ def analyse(ctx, case):
         budget = case['value']
     elif case['form'] == 'default':
         budget = math.ceil(case['n'] / .01)        # set_objective: quantile defaults to .01
-    keys = [float(pool.stores['d'][bi][r]) for bi in range(nb_pool) for r in range(case['b'])]
+    keys = [last_col(pool.stores['d'][bi][r]) for bi in range(nb_pool) for r in range(case['b'])]
     acc_fin = [k for k in keys if math.isfinite(k) and (thr_given is None or thr_given == 'inf' or k <= case['value'])]
     info = dict(res=res, nb_pool=nb_pool, cons=cons, out=out, unmatched=unmatched, thr_given=thr_given,
                 budget=budget, batches=batches, n_acc_fin=len(acc_fin), keys=keys,
@@ -189,7 +198,8 @@ def gen_case(rng, boundary=None):
         b = rng.randint(5, 8)
     int_d = p_inf == 0 and rng.random() < .3
     positional = rng.random() < .3
-    return dict(b=b, n=n, form=form, value=value, alphabet=A, p_inf=p_inf, int_discrepancy=int_d, positional=positional, seed=rng.randrange(2**32),
+    two_col = form in ('quantile', 'n_sim') and p_inf == 0 and not int_d and rng.random() < .35
+    return dict(b=b, n=n, form=form, value=value, alphabet=A, p_inf=p_inf, int_discrepancy=int_d, positional=positional, two_col=two_col, seed=rng.randrange(2**32),
                 n_params=rng.randint(1, 3), summary_shape=rng.choice(['vec', 'mat']), extra=rng.random() < .6,
                 mpb=rng.choice([1, 1, 2, 3]))
 
@@ -228,7 +238,7 @@ def process(ctx, cases):
         reqs.append(dict(op='C01.run', n=case['n'], b=case['b'], thr=thr, nSim=nsim, mpb=case['mpb'],
                          batches=info['batches']))
         reqs.append(dict(op='C01.check', thr=thr, n=case['n'], consumed=info['cons'], out=info['out'],
-                         threshold=key_json(info['res'].threshold)))
+                         threshold=key_json(last_col(info['res'].threshold))))
         meta.append((case, info))
     if not ctx.driver_ok:
         return
@@ -246,7 +256,7 @@ def process(ctx, cases):
                            'checkExtract = true', dict(out=info['out'], threshold=float(res.threshold),
                                                        consumed=info['cons']), finding=fid)
         mdl = a['ok']
-        code = dict(keys=[key_json(v) for v in res.outputs['d']], threshold=key_json(res.threshold),
+        code = dict(keys=[key_json(last_col(v)) for v in res.outputs['d']], threshold=key_json(last_col(res.threshold)),
                     nSim=res.n_sim, nBatches=res.n_batches)
         if mdl.get('nBatches') is None:
             ctx.corr_break('run.n_batches', case, 'model wants more than the %d consumed batches' % info['nb_pool'], code['nBatches'])
@@ -273,7 +283,7 @@ def replay(ctx, case):
     direct(ctx, case, info)
     thr = info['thr_given']
     chk = ctx.lean.drive([dict(op='C01.check', thr=thr, n=case['n'], consumed=info['cons'], out=info['out'],
-                               threshold=key_json(info['res'].threshold))])[0]
+                               threshold=key_json(last_col(info['res'].threshold)))])[0]
     if not chk.get('ok', {}).get('check'):
         ctx.fail_input(case, 'returned rows are not exactly the n smallest accepted consumed draws', finding=classify(case, info))
     return dict(returned=info['out'], threshold=float(info['res'].threshold), n_batches=info['res'].n_batches,
